@@ -856,6 +856,15 @@ async fn run_st(case: &Case, obs: &mut Obs, shared: Arc<Shared>) -> CheckResult 
     panic_fail(&shared)?;
 
     // ---- final phase 2: drop the manager; every worker terminates ----
+    // handles of the managed pairs, kept beyond the manager's lifetime (verif-hooks HandleProbe):
+    // after the drop each must report an error instead of a path
+    let probes: Vec<(usize, scion_stack::verif::HandleProbe)> = match st.mgr.as_ref() {
+        Some(m) => {
+            let w = world();
+            (0..NPAIRS).filter_map(|p| scion_stack::verif::HandleProbe::of(m, w.src, w.dst[p]).map(|h| (p, h))).collect()
+        }
+        None => vec![],
+    };
     st.mgr = None;
     st.book.on_dropmgr();
     st.waiters.clear();
@@ -879,6 +888,11 @@ async fn run_st(case: &Case, obs: &mut Obs, shared: Arc<Shared>) -> CheckResult 
         "drop:manager-state-leaked",
         "the manager's shared state (and the fetcher it owns) was not freed after the last handle and all callers were dropped"
     );
+    for (p, h) in &probes {
+        ensure!(!h.has_active_path(), "drop:handle-still-hands-out-a-path", "after the manager was dropped and its worker for pair {p} terminated, the pair's handle still holds an active path (error reported: {:?})", h.current_error());
+        ensure!(h.current_error().is_some(), "drop:handle-reports-no-error", "after the manager was dropped and its worker for pair {p} terminated, the pair's handle reports no error");
+        st.obs.label("handle-probed-after-drop");
+    }
     panic_fail(&shared)?;
 
     st.obs.evals(st.waiters.len() as u64 + 1);
